@@ -61,6 +61,7 @@ func checkC11(c *Ctx, r *Report) {
 	checkAztecCut(c, r)
 	checkAztecCorners(c, r)
 	checkAztecRotation(c, r)
+	checkAztecSidePacking(c, r)
 	checkAztecCharset(c, r)
 	checkAztecDecoderState(c, r)
 	checkAztecReadCode(c, r, "M-READCODE")
@@ -1494,4 +1495,114 @@ func checkAztecCharset(c *Ctx, r *Report) {
 		bad = fmt.Sprintf("?expected one initialisation and the ECI change of the character set (found %d, %d)", nInit, nECI)
 	}
 	reportFold(r, c, "M-AZCHARSET", key, fd.Pos(), bad)
+}
+
+// T-AZPACK: the mode message is assembled from the right bits of the four sides
+func checkAztecSidePacking(c *Ctx, r *Report) {
+	r.Rule("T-AZPACK", "Detector.extractParameters takes from each sampled side of the mode-message ring exactly the data modules ISO 24778 puts there - compact: of the 10 samples the 7 between the two leading orientation modules and the trailing one; full range: of the 14 samples the 5 + 5 on either side of the reference-grid module - most significant first, and appends them to the bits of the sides before: the loop body is folded for every sample word of a side (1024 compact, 16384 full range)", 2)
+	fd, p := c.funcDeclOf("aztec/detector", "Detector.extractParameters")
+	if fd == nil || fd.Recv == nil || len(fd.Recv.List[0].Names) == 0 {
+		r.AnchorLost("T-AZPACK", "aztec/detector.Detector.extractParameters", "method not found")
+		return
+	}
+	recv := p.TypesInfo.Defs[fd.Recv.List[0].Names[0]]
+	var sidesObj types.Object
+	for _, call := range findCalls(p, fd.Body, func(o types.Object) bool { return isFuncNamed(o, "aztec/detector", "getRotation") }) {
+		if len(call.Args) == 2 {
+			sidesObj = identObj(p, call.Args[0])
+		}
+	}
+	var loop *ast.ForStmt
+	var lr loopRange
+	ast.Inspect(fd.Body, func(n ast.Node) bool {
+		fs, ok := n.(*ast.ForStmt)
+		if !ok || loop != nil {
+			return true
+		}
+		rng, ok := loopVarRange(p, fs)
+		if !ok {
+			return true
+		}
+		uses := false
+		ast.Inspect(fs.Body, func(m ast.Node) bool {
+			if ix, ok := m.(*ast.IndexExpr); ok && sidesObj != nil && identObj(p, ix.X) == sidesObj {
+				uses = true
+			}
+			return true
+		})
+		if uses {
+			loop, lr = fs, rng
+		}
+		return true
+	})
+	// the accumulator: the variable the body shifts left
+	var acc types.Object
+	if loop != nil {
+		ast.Inspect(loop.Body, func(n ast.Node) bool {
+			if as, ok := n.(*ast.AssignStmt); ok && as.Tok == token.SHL_ASSIGN && len(as.Lhs) == 1 {
+				acc = identObj(p, as.Lhs[0])
+			}
+			return true
+		})
+	}
+	for _, compact := range []bool{true, false} {
+		key := fmt.Sprintf("aztec/detector.Detector.extractParameters/side-bits(compact=%v)", compact)
+		if loop == nil || acc == nil {
+			r.Undecided("T-AZPACK", key, c.pos(fd.Pos()), "the loop that packs the four sides was not found")
+			continue
+		}
+		r.Analysed(key)
+		samples, width := 14, uint(10)
+		if compact {
+			samples, width = 10, 7
+		}
+		const before = 0x2B5
+		bad := ""
+		for s := int64(0); s < 1<<uint(samples) && bad == ""; s++ {
+			var want int64
+			if compact {
+				want = (s >> 1) & 0x7F
+			} else {
+				want = ((s>>7)&0x1F)<<5 | ((s >> 1) & 0x1F)
+			}
+			env := map[types.Object]*Val{
+				recv: {K: VStruct, Ptr: true, Fields: map[string]*Val{"shift": vint(0), "compact": vbool(compact)}},
+				lr.v: vint(0),
+				acc:  {K: VInt, I: before, T: types.Typ[types.Int64]},
+			}
+			h := &rpf{idxHook: func(rr *rpf, ix *ast.IndexExpr) (*Val, bool) {
+				if identObj(p, ix.X) == sidesObj {
+					return vint(s), true
+				}
+				return nil, false
+			}}
+			rr := &rpf{c: c, p: p, env: env, idxHook: h.idxHook, curFn: fd}
+			var err error
+			func() {
+				defer func() {
+					if x := recover(); x != nil {
+						if re, ok := x.(*rpfErr); ok {
+							err = re
+							return
+						}
+						panic(x)
+					}
+				}()
+				rr.block(loop.Body.List)
+			}()
+			if err != nil {
+				bad = "?" + err.Error()
+				break
+			}
+			got := env[acc]
+			if got == nil || got.K != VInt || got.I != before<<width|want {
+				g := int64(-1)
+				if got != nil {
+					g = got.I
+				}
+				bad = fmt.Sprintf("side samples %0*b: the message becomes %#x; the bits before (%#x) followed by the side's data modules %0*b are %#x", samples, s, g, before, width, want, int64(before)<<width|want)
+			}
+		}
+		reportFold(r, c, "T-AZPACK", key, loop.Pos(), bad)
+	}
 }
